@@ -71,10 +71,13 @@ impl Query {
     }
 }
 
-const SCAN_LIMIT: usize = 1 << 20;
 
 /// Executes a query on the real reader over `bytes`; returns the yielded entries.
 pub fn run_query(bytes: &[u8], q: &Query) -> Result<Vec<Entry>, String> {
+    // every stored entry takes at least two bytes of the file: an iterator that yields more than
+    // that many entries does not terminate (reported as such, quickly)
+    #[allow(non_snake_case)]
+    let SCAN_LIMIT: usize = bytes.len() / 2 + 16;
     let r = guarded(|| -> Result<Vec<Entry>, String> {
         let e = |e: grenad::Error| format!("error: {e}");
         let reader = Reader::new(std::io::Cursor::new(bytes)).map_err(e)?;
